@@ -15,10 +15,15 @@ RULE = (
     "variables, cards 1-3, all state-name kinds, cycles/trees/dense shapes, duplicate factors (MN); for each: "
     "calibrate and max_calibrate beliefs vs brute-force (max-)marginals of the factor product, sepset agreement, "
     "then BeliefPropagation.query with evidence by state name (and virtual evidence for BNs) vs the brute-force "
-    "conditional and vs VariableElimination. non-trivial = the clique tree has >= 2 cliques and (evidence is "
-    "non-empty or the query spans two cliques); distinct = sha1 of the case."
+    "conditional and vs VariableElimination; plus BeliefPropagationWithMessagePassing.query on generated loop-free "
+    "factor graphs (1-7 variables, unary/pairwise/ternary factors, hard evidence by state number, virtual evidence) "
+    "vs the brute-force conditional. non-trivial = the clique tree has >= 2 cliques and (evidence is non-empty or "
+    "the query spans two cliques) / >= 3 variables, >= 2 factors and evidence (message passing); distinct = sha1 of "
+    "the case."
 )
 ASSUMPTIONS = [
+    "message passing engine: loop-free factor graphs only (its documentation says so), default integer state names "
+    "(its evidence is documented as the observed state *number*)",
     "the interaction graph is connected by construction (the library rejects disconnected clique trees by design)",
     "evidence has positive probability (projected from an assignment in the joint's support)",
     "beliefs are compared after normalisation (proportionality), tolerance 1e-9",
@@ -270,9 +275,126 @@ def _cmp(out, tag, res, query, want, spec, J, joint, evidence, virtual):
                 out.fail(f"{tag}:value", d)
 
 
+# ------------------------------------------------------------------------- message passing on loop-free factor graphs
+@st.composite
+def tree_fg_case(draw):
+    """a loop-free factor graph grown factor by factor (each new factor touches exactly one existing variable), unary
+    factors on top, default state names (this engine takes evidence as state numbers), positive-probability evidence"""
+    kind = draw(st.sampled_from(["str", "int"]))
+    pool = ["v0", "v1", "v2", "v3", "v4", "v5", "v6"] if kind == "str" else [10, 11, 12, 13, 14, 15, 16]
+    nodes = [pool[0]]
+    card = {pool[0]: draw(st.sampled_from([2, 2, 3, 1]))}
+    factors = []
+    nf = draw(st.integers(0, 4))
+    for _ in range(nf):
+        if len(nodes) >= len(pool):
+            break
+        anchor = nodes[draw(st.integers(0, len(nodes) - 1))]
+        k_new = draw(st.sampled_from([1, 1, 1, 2]))
+        new = pool[len(nodes): len(nodes) + k_new]
+        if not new:
+            break
+        for v in new:
+            card[v] = draw(st.sampled_from([2, 2, 3, 1]))
+            nodes.append(v)
+        scope = list(draw(st.permutations([anchor] + new)))
+        size = 1
+        for v in scope:
+            size *= card[v]
+        factors.append({"vars": scope, "values": draw(gen.factor_values(size))})
+    for v in nodes:
+        if draw(st.integers(0, 2)) == 0 or not any(v in f["vars"] for f in factors):
+            factors.append({"vars": [v], "values": draw(gen.factor_values(card[v]))})
+    spec = {"name_kind": kind, "nodes": nodes, "card": [card[v] for v in nodes], "states": [list(range(card[v])) for v in nodes],
+            "factors": factors, "edges": []}
+    spec["factors"] = gen.drop_equal_factors(spec)
+    for v in nodes:  # a variable whose only factor was dropped as a duplicate still needs one
+        if not any(v in f["vars"] for f in spec["factors"]):
+            spec["factors"].append({"vars": [v], "values": [1.0 + 0.25 * nodes.index(v) + 0.5 * i for i in range(card[v])]})
+    J = Joint.from_factors(spec["nodes"], spec["states"], spec["factors"])
+    support = sorted(J.support_assignments())
+    if not support:
+        # all-zero model: make every factor positive
+        for f in spec["factors"]:
+            f["values"] = [x if x > 0 else 0.5 for x in f["values"]]
+        J = Joint.from_factors(spec["nodes"], spec["states"], spec["factors"])
+        support = sorted(J.support_assignments())
+    a = support[draw(st.integers(0, len(support) - 1))]
+    order = list(draw(st.permutations(nodes)))
+    nq = draw(st.integers(1, min(3, len(nodes))))
+    query, rest = order[:nq], order[nq:]
+    ne = draw(st.integers(0, len(rest)))
+    evidence = [[v, a[J.idx[v]]] for v in rest[:ne]]
+    virtual = []
+    if kind == "str":
+        for v in (rest[ne:] + (query if draw(st.integers(0, 3)) == 0 else []))[: draw(st.integers(0, 2))]:
+            lik = [draw(st.sampled_from([0.0, 1.0, 0.5, 0.25, 0.9])) for _ in range(card[v])]
+            if lik[a[J.idx[v]]] == 0.0:
+                lik[a[J.idx[v]]] = draw(st.sampled_from([1.0, 0.3]))
+            virtual.append([v, lik])
+    return {"spec": spec, "query": query, "evidence": evidence, "virtual": virtual}
+
+
+def check_message_passing(case, out):
+    """BeliefPropagationWithMessagePassing ("factor graphs with no loops") vs the brute-force joint."""
+    from pgmpy.inference.ExactInference import BeliefPropagationWithMessagePassing as BPMP
+
+    spec = case["spec"]
+    J = Joint.from_factors(spec["nodes"], spec["states"], spec["factors"])
+    query = list(case["query"])
+    evidence = {v: s for v, s in case["evidence"]}
+    virtual = case["virtual"]
+    out.nontrivial = len(spec["nodes"]) >= 3 and len(spec["factors"]) >= 2 and bool(evidence or virtual)
+    out.cls(f"names_{spec['name_kind']}", f"n{len(spec['nodes'])}")
+    if any(len(f["vars"]) >= 3 for f in spec["factors"]):
+        out.cls("ternary_factor")
+    if any(c == 1 for c in spec["card"]):
+        out.cls("card1")
+    if evidence:
+        out.cls("hard_evidence")
+    if virtual:
+        out.cls("virtual_evidence")
+    fg = out.call("build", build_fg, spec)
+    if fg is RAISED:
+        return
+    eng = out.call("BeliefPropagationWithMessagePassing", BPMP, fg)
+    if eng is RAISED:
+        return
+    kw = dict(variables=list(query), evidence=dict(evidence) or None)
+    if virtual:
+        kw["virtual_evidence"] = _virtual_cpds(spec, virtual)
+    out.evals = 0
+    for get_messages in (False, True):
+        res = out.call(f"mp.query[get_messages={get_messages}]", eng.query, get_messages=get_messages, **kw)
+        out.evals += 1
+        if res is RAISED:
+            continue
+        if get_messages:
+            if not isinstance(res, tuple) or len(res) != 2:
+                out.fail("mp.query[get_messages=True]:shape", str(type(res)))
+                continue
+            res = res[0]
+        if not isinstance(res, dict) or set(res.keys()) != set(query):
+            out.fail("mp.query:keys", f"{list(res) if isinstance(res, dict) else type(res)} vs {query}")
+            continue
+        for v in query:
+            f = res[v]
+            want = J.marginal([v], evidence, [(x, lik) for x, lik in virtual])
+            if list(f.variables) != [v]:
+                out.fail("mp.query:scope", f"{f.variables} for {v}")
+                continue
+            d = compare_named(factor_to_named(f), want)
+            if d:
+                out.fail("mp.query:value", d + f" factors={[g['vars'] for g in spec['factors']]} evidence={case['evidence']} virtual={virtual}")
+    out.sample = {"nodes": spec["nodes"], "factors": [f["vars"] for f in spec["factors"]], "query": query, "evidence": case["evidence"]}
+
+
+
 SUBCHECKS = [
     Sub("calibration", check_calibration, strategy=lambda tier: model_case(), n={"quick": 150, "thorough": 2500},
         shards={"quick": 8, "thorough": 16}, doc="calibrate / max_calibrate: clique and sepset beliefs proportional to (max-)marginals; adjacent cliques agree"),
+    Sub("message_passing", check_message_passing, strategy=lambda tier: tree_fg_case(), n={"quick": 250, "thorough": 4000},
+        shards={"quick": 4, "thorough": 8}, doc="BeliefPropagationWithMessagePassing.query on loop-free factor graphs (hard evidence by state number, virtual evidence, message dump) vs brute force"),
     Sub("bp_query", check_query, strategy=lambda tier: model_case(), n={"quick": 200, "thorough": 3000},
         shards={"quick": 8, "thorough": 16}, doc="BeliefPropagation.query (evidence by state name, virtual evidence, joint T/F, repeated) vs brute force and vs VariableElimination"),
 ]
